@@ -47,14 +47,15 @@ pub mod platform {
 }
 
 /// One positioned read as the OS answered it: `n` bytes asked at offset `off`, `got` = the bytes returned (None = error).
-pub struct ReadEv { pub n: usize, pub off: u64, pub got: Option<Seq<u8>> }
+pub struct ReadEv { pub n: int, pub off: u64, pub got: Option<Seq<u8>> }
+//@typeof READ_SIZE_T = src/platform.rs :: fn read_at :: chunk_size
 impl fs::File {
     /// src/platform.rs `FileExt::read_at` (pread(2) into an uninitialised buffer: unsafe FFI, ASSUMED): at most `chunk_size`
     /// bytes, and never an empty Ok (a 0-byte read - nothing at or beyond `offset` - is turned into UnexpectedEof there).
     /// Every call is appended to the ghost log `reads` (rule R44), so "which bytes were read where" can be a postcondition.
     #[verifier::external_body]
-    pub fn read_at(&self, chunk_size: usize, offset: u64, reads: &mut Ghost<Seq<ReadEv>>) -> (r: Result<Vec<u8>, io::Error>)
-        ensures final(reads)@ == old(reads)@.push(ReadEv { n: chunk_size, off: offset, got: match r { Ok(v) => Some(v@), Err(_) => None } }),
+    pub fn read_at(&self, chunk_size: READ_SIZE_T, offset: u64, reads: &mut Ghost<Seq<ReadEv>>) -> (r: Result<Vec<u8>, io::Error>)
+        ensures final(reads)@ == old(reads)@.push(ReadEv { n: chunk_size as int, off: offset, got: match r { Ok(v) => Some(v@), Err(_) => None } }),
                 r matches Ok(v) ==> 1 <= v@.len() <= chunk_size,
     { unimplemented!() }
 }
@@ -170,7 +171,7 @@ pub type StepState = (Range<u64>, Arc<ChunkedReadFileInner>);
 /// One step from state `left` when the OS answers `ev`: the item yielded and the next range.
 pub open spec fn step_ok(left: Range<u64>, ev: ReadEv, next: Range<u64>) -> bool {
     &&& ev.off == left.start
-    &&& ev.n == (if left.end - left.start < CHUNK_SIZE { left.end - left.start } else { CHUNK_SIZE as int })
+    &&& ev.n == (if left.end - left.start < CHUNK_SIZE as int { left.end - left.start } else { CHUNK_SIZE as int })
     &&& match ev.got {
             Some(b) => 1 <= b.len() <= left.end - left.start && next.start == left.start + b.len() && next.end == left.end,
             None => next == left,
